@@ -24,6 +24,14 @@ theorem generated_shape :
     site, or a synchronized section with a single `with` item, breaks this). -/
 theorem generated_sites : Generated.ttyLockSites = lockSites := by decide
 
+/-- `_rlock_type` is evaluated before the import-time adoption (see `initOrder`) -/
+theorem generated_init_order : Generated.moduleInitOrder = initOrder := by decide
+
+/-- nothing in the package binds the lock OBJECT by name (`from ..utils import _tty_lock`): such an
+    alias goes stale when `utils._tty_lock` is re-bound by the first `Process.start()`; every section
+    of the model loads the global `cur p` at call time. -/
+theorem generated_no_alias : Generated.lockAliases = [] := by decide
+
 /-- the anchored users are synchronized through `lock_tty` -/
 theorem generated_users : ∀ u ∈ requiredUsers, u ∈ Generated.lockTtyUsers := by decide
 
